@@ -14,7 +14,7 @@ SPEC = {
          "eval": "fun c => let '(s, d, o, v, p, r, e) := c in check_c22 s d o v p r e 300", "per_shard": 20},
     ],
     "classes": {},
-    "n_quick": 400, "n_thorough": 3000,
+    "n_quick": 400, "n_thorough": 1600,
     "level": "proof",
     "what_violation": ("a resolver's selection/look-ahead view misses a sub-field that was resolved beneath it, lists a field "
                        "removed by @skip/@include, or reports different arguments"),
